@@ -233,6 +233,10 @@ pub struct ReindexBatch {
 impl HashColumn {
 	pub fn get(&self, key: &Key, log: &impl LogQuery) -> Result<Option<(Value, u32)>> {
 		let tables = self.tables.read();
+		// Taken before the current index is searched: otherwise the migration of the key into the current
+		// index and the drop of the old index can both complete between the two lookups, and a live key
+		// is found in neither.
+		let reindex = self.reindex.read();
 		let values = self.as_ref(&tables.value);
 		if let Some((tier, rc, value)) = self.get_in_index(key, &tables.index, values, log)? {
 			if self.collect_stats {
@@ -240,7 +244,7 @@ impl HashColumn {
 			}
 			return Ok(Some((value, rc)))
 		}
-		for entry in &self.reindex.read().queue {
+		for entry in &reindex.queue {
 			if let ReindexEntry::Index(r) = entry {
 				if let Some((tier, rc, value)) = self.get_in_index(key, r, values, log)? {
 					if self.collect_stats {
